@@ -743,7 +743,9 @@ def c21(pid, tier, seed, scratch):
     classes = set()
     masks_all = list(range(32))
     # ---- (a) targeted damage
-    files = [(seed * 100 + 21, 7, "tiny"), (seed * 100 + 22, 10, "corpus")] if tier == "quick" else [(seed * 100 + 21, 7, "tiny"), (seed * 100 + 22, 10, "corpus"), (seed * 100 + 23, 9, "tiny"), (seed * 100 + 24, 14, "corpus")]
+    # "reuse": histories with metadata-only updates (a higher frame id re-uses the stored payload of a lower one) - vacuum has to cope
+    files = [(seed * 100 + 21, 7, "tiny"), (seed * 100 + 22, 10, "corpus"), (seed * 100 + 25, 9, "reuse")] if tier == "quick" else \
+        [(seed * 100 + 21, 7, "tiny"), (seed * 100 + 22, 10, "corpus"), (seed * 100 + 23, 9, "tiny"), (seed * 100 + 24, 14, "corpus"), (seed * 100 + 25, 9, "reuse"), (seed * 100 + 26, 14, "reuse")]
     for fi, (fseed, ops, profile) in enumerate(files):
         wd = os.path.join(scratch, f"f{fi}")
         os.makedirs(wd, exist_ok=True)
